@@ -47,9 +47,20 @@ var CorpusHand = []RouteSet{
 	// indices 1 and 7 (resp. 0 and 6) share a method in every harness that spreads routes over methods (i%2, i%3);
 	// 1 and 7 are routes that do not ignore trailing slashes in C11
 	rs("host-overlap-tsr", "GET", "/z", "b/x/", "/w", "/v", "b/y", "/u", "/t", "{h}/x"),
-	rs("param-wild-siblings", "GET", "/fs/{f}", "/q", "/r/", "/s", "/t", "/u", "/fs/*{p}"),
+	rs("param-wild-siblings", "GET", "/fs/{f}", "/q", "/r/", "/s", "/t", "/r", "/fs/*{p}"),
 	// one node key holding two parameters followed by more text
 	rs("host-two-params", "GET", "{a}.{b}.c/x", "/x", "/w"),
+	// a static edge whose first byte sorts before '*' added under a node that already has a catch-all child
+	// (indices 0, 2, 4 share a method in C07)
+	rs("low-byte-sibling", "GET", "/f/*{p}", "/q", "/f/a", "/r", "/f/$m", "/s", "/f/(x)"),
+	// static text before a parameter inside one host label, with a static sibling label sharing the prefix
+	rs("host-midlabel-param", "GET", "s1.b/x", "/x", "/w", "/v", "/u", "/t", "s{n}.b/y"),
+	// more recorded backtracking alternatives (static + {param} + *{catch-all} at three nested levels) than tree levels
+	rs("deep-alternatives", "GET", "/f/*{p}", "/f/{n}", "/f/i/*{p}", "/f/i/{n}", "/f/i/c/*{p}", "/f/i/c/{n}", "/f/i/c/l"),
+	// accepted static patterns that are not in canonical form
+	rs("noncanonical-static", "GET", "/n/./b/", "/q", "/m/../d", "/k/./e/"),
+	// a static route matching without the slash, and a parameter sibling whose sub-tree branches right after its '/'
+	rs("tsr-static-over-param-branch", "GET", "/u/m", "/u/{i}", "/u/{i}/p", "/u/{i}/l"),
 }
 
 // fanout has 60 sibling first bytes under "/" (the 50-child linear/binary search switch).
